@@ -1,0 +1,189 @@
+//go:build verif
+
+// Contracts for the deductive checker in /verif (gvc). This file contains
+// comments only; it is compiled only with the build tag "verif" and then
+// contributes no code.
+
+package bitmask
+
+//@ property C17
+//@ bv uint64
+
+// ---------------------------------------------------------------------------
+// Set model. W(m,k): the k-th 64-bit word of the set a word slice denotes;
+// words beyond the slice are zero. Bit b is in the set iff bit b%64 of
+// W(m, b/64) is set. All LongBitmask contracts are stated over all words k.
+// ---------------------------------------------------------------------------
+//@ pure W(m []uint64, k int) uint64 = ite(k < len(m), m[k], 0)
+//@ pure one(s uint) uint64 = uint64(1) << s
+//@ pure lowmask(s uint) uint64 = (uint64(1) << s) - 1
+
+// word step of Inject: bits below s stay, bits from s on move up by one, bit s = v
+//@ pure injw(w uint64, s uint, v bool) uint64 = (w & lowmask(s)) | ((w &^ lowmask(s)) << 1) | ite(v, one(s), 0)
+
+// assumed contracts of math/bits (their defining properties)
+//@ uninterp popcnt(x uint64) int
+//@ extern math/bits.OnesCount64(x) r
+//@   ensures r == popcnt(x) && 0 <= r && r <= 64 && (r == 0) == (x == 0)
+//@ extern math/bits.Len64(x) r
+//@   ensures 0 <= r && r <= 64 && (r == 0) == (x == 0)
+//@   ensures implies(r > 0, x >> uint(r-1) == 1)
+//@ extern math/bits.TrailingZeros64(x) r
+//@   ensures 0 <= r && r <= 64 && (r == 64) == (x == 0)
+//@   ensures implies(r < 64, bitset(x, r) && x & lowmask(uint(r)) == 0)
+
+// popsum(m, n) = sum of popcnt over the first n words
+//@ uninterp popsum(m []uint64, n int) int
+//@ axiom popsum_zero: forall_slice(uint64, m, popsum(m, 0) == 0)
+//@ axiom popsum_step: forall_slice(uint64, m, forall(n, 0, inf, popsum(m, n+1) == popsum(m, n) + popcnt(m[n])))
+
+// bit-level meaning of the word formulas used below (pure bit-vector facts)
+//@ lemma bit_or: forall(uint64, x, 0, inf, forall(uint64, y, 0, inf, forall(t, 0, 64, bitset(x|y, t) == (bitset(x, t) || bitset(y, t)))))
+//@ lemma bit_and: forall(uint64, x, 0, inf, forall(uint64, y, 0, inf, forall(t, 0, 64, bitset(x&y, t) == (bitset(x, t) && bitset(y, t)))))
+//@ lemma bit_xor: forall(uint64, x, 0, inf, forall(uint64, y, 0, inf, forall(t, 0, 64, bitset(x^y, t) == (bitset(x, t) != bitset(y, t)))))
+//@ lemma bit_andnot: forall(uint64, x, 0, inf, forall(uint64, y, 0, inf, forall(t, 0, 64, bitset(x&^y, t) == (bitset(x, t) && !bitset(y, t)))))
+//@ lemma bit_one: forall(uint, s, 0, 64, forall(t, 0, 64, bitset(one(s), t) == (t == s)))
+//@ lemma bit_inject: forall(uint64, w, 0, inf, forall(uint, s, 0, 64, forall(t, 0, 64, \
+//@     bitset(injw(w, s, true), t) == ite(t < s, bitset(w, t), ite(t == s, true, bitset(w, t-1))) && \
+//@     bitset(injw(w, s, false), t) == ite(t < s, bitset(w, t), ite(t == s, false, bitset(w, t-1))))))
+//@ lemma bit_carry: forall(uint64, w, 0, inf, forall(uint64, p, 0, inf, forall(t, 0, 64, \
+//@     bitset((w << 1) | (p >> 63), t) == ite(t == 0, bitset(p, 63), bitset(w, t-1)))))
+
+// ---------------------------------------------------------------------------
+// LongBitmask
+// ---------------------------------------------------------------------------
+
+//@ func WrapAsLongBitmask
+//@   ensures same_slice(result.mask, mask)
+
+//@ func (LongBitmask).Mask
+//@   ensures same_slice(result, bm.mask)
+
+//@ func (LongBitmask).Copy
+//@   ensures seq_eq(result.mask, bm.mask)
+
+//@ func (LongBitmask).IsSet
+//@   ensures result == (bit/64 < len(bm.mask) && bitset(W(bm.mask, int(bit/64)), bit%64))
+
+//@ func (LongBitmask).OnesCount
+//@   ensures result == popsum(bm.mask, len(bm.mask))
+//@   loop 1 invariant -1 <= rangeindex && rangeindex < len(bm.mask)
+//@   loop 1 invariant count == popsum(bm.mask, rangeindex+1)
+//@   loop 1 invariant 0 <= count && count <= 64*(rangeindex+1)
+//@   loop 1 decreases len(bm.mask) - rangeindex
+
+// Len: one more than the index of the highest set bit, 0 for the empty set
+//@ func (LongBitmask).Len
+//@   ensures 0 <= result
+//@   ensures implies(result == 0, forall(k, 0, inf, W(bm.mask, k) == 0))
+//@   ensures implies(result > 0, W(bm.mask, (result-1)/64) != 0 && forall(k, (result-1)/64+1, inf, W(bm.mask, k) == 0))
+//@   ensures implies(result > 0, result - ((result-1)/64)*64 >= 1 && result - ((result-1)/64)*64 <= 64 && W(bm.mask, (result-1)/64) >> uint(result-((result-1)/64)*64-1) == 1)
+//@   loop 1 invariant -1 <= idx && idx < len(bm.mask)
+//@   loop 1 invariant forall(k, idx+1, len(bm.mask), bm.mask[k] == 0)
+//@   loop 1 decreases idx + 1
+
+//@ func (LongBitmask).IsZero
+//@   ensures result == forall(k, 0, inf, W(bm.mask, k) == 0)
+//@   loop 1 invariant -1 <= rangeindex && rangeindex < len(bm.mask)
+//@   loop 1 invariant forall(k, 0, rangeindex+1, bm.mask[k] == 0)
+//@   loop 1 decreases len(bm.mask) - rangeindex
+
+// masked(m, bit, k): word k with the bits below `bit` cleared (only the word bit/64 is affected)
+//@ pure masked(m []uint64, b uint, k int) uint64 = ite(k == int(b/64), (W(m, k) >> (b%64)) << (b%64), W(m, k))
+// tzf(m, b, r): r is the distance from b to the first set bit at or after b, or -1 if there is none
+//@ pure tzf(m []uint64, b uint, r int) bool = ite(r == -1, \
+//@     forall(k, int(b/64), inf, masked(m, b, k) == 0), \
+//@     r >= 0 && masked(m, b, int((b+uint(r))/64)) != 0 && forall(k, int(b/64), int((b+uint(r))/64), masked(m, b, k) == 0) && \
+//@     bitset(masked(m, b, int((b+uint(r))/64)), (b+uint(r))%64) && masked(m, b, int((b+uint(r))/64)) & lowmask((b+uint(r))%64) == 0)
+
+//@ func (LongBitmask).TrailingZerosFrom
+//@   ensures tzf(bm.mask, bit, result)
+//@   loop 1 invariant -1 <= rangeindex && rangeindex < len(bm.mask) - int(startIdx)
+//@   loop 1 invariant forall(k, int(startIdx), int(startIdx)+rangeindex+1, masked(bm.mask, bit, k) == 0)
+//@   loop 1 decreases len(bm.mask) - int(startIdx) - rangeindex
+
+//@ func (*LongBitmask).Set
+//@   modifies bm.mask
+//@   ensures forall(k, 0, inf, W(bm.mask, k) == old(W(bm.mask, k)) | ite(k == int(bit/64), one(bit%64), 0))
+
+//@ func (*LongBitmask).Unset
+//@   modifies bm.mask
+//@   ensures forall(k, 0, inf, W(bm.mask, k) == old(W(bm.mask, k)) &^ ite(k == int(bit/64), one(bit%64), 0))
+
+//@ func (*LongBitmask).Flip
+//@   modifies bm.mask
+//@   ensures forall(k, 0, inf, W(bm.mask, k) == old(W(bm.mask, k)) ^ ite(k == int(bit/64), one(bit%64), 0))
+
+//@ func (LongBitmask).Equal
+//@   ensures result == forall(k, 0, inf, W(bm.mask, k) == W(other.mask, k))
+//@   loop 1 invariant -1 <= rangeindex && rangeindex < len(shorter) && len(shorter) <= len(longer)
+//@   loop 1 invariant forall(k, 0, rangeindex+1, shorter[k] == longer[k])
+//@   loop 1 decreases len(shorter) - rangeindex
+//@   loop 2 invariant -1 <= rangeindex && rangeindex < len(longer) - len(shorter)
+//@   loop 2 invariant forall(k, len(shorter), len(shorter)+rangeindex+1, longer[k] == 0)
+//@   loop 2 decreases len(longer) - len(shorter) - rangeindex
+
+//@ func (*LongBitmask).Or
+//@   modifies bm.mask
+//@   ensures forall(k, 0, inf, W(bm.mask, k) == old(W(bm.mask, k)) | W(other.mask, k))
+//@   loop 1 invariant 0 <= idx && idx <= min && min <= len(bm.mask) && min <= len(other.mask)
+//@   loop 1 invariant forall(k, 0, idx, bm.mask[k] == old(bm.mask[k]) | other.mask[k])
+//@   loop 1 invariant forall(k, idx, len(bm.mask), bm.mask[k] == old(bm.mask[k]))
+//@   loop 1 decreases min - idx
+
+//@ func (*LongBitmask).Xor
+//@   modifies bm.mask
+//@   ensures forall(k, 0, inf, W(bm.mask, k) == old(W(bm.mask, k)) ^ W(other.mask, k))
+//@   loop 1 invariant 0 <= idx && idx <= min && min <= len(bm.mask) && min <= len(other.mask)
+//@   loop 1 invariant forall(k, 0, idx, bm.mask[k] == old(bm.mask[k]) ^ other.mask[k])
+//@   loop 1 invariant forall(k, idx, len(bm.mask), bm.mask[k] == old(bm.mask[k]))
+//@   loop 1 decreases min - idx
+
+//@ func (*LongBitmask).Sub
+//@   modifies bm.mask
+//@   ensures forall(k, 0, inf, W(bm.mask, k) == old(W(bm.mask, k)) &^ W(other.mask, k))
+//@   loop 1 invariant 0 <= idx && idx <= min && min <= len(bm.mask) && min <= len(other.mask)
+//@   loop 1 invariant forall(k, 0, idx, bm.mask[k] == old(bm.mask[k]) &^ other.mask[k])
+//@   loop 1 invariant forall(k, idx, len(bm.mask), bm.mask[k] == old(bm.mask[k]))
+//@   loop 1 decreases min - idx
+
+//@ func (*LongBitmask).And
+//@   modifies bm.mask
+//@   ensures forall(k, 0, inf, W(bm.mask, k) == old(W(bm.mask, k)) & W(other.mask, k))
+//@   loop 1 invariant -1 <= rangeindex && rangeindex < len(bm.mask)
+//@   loop 1 invariant forall(k, 0, rangeindex+1, bm.mask[k] == old(bm.mask[k]) & other.mask[k])
+//@   loop 1 invariant forall(k, rangeindex+1, len(bm.mask), bm.mask[k] == old(bm.mask[k]))
+//@   loop 1 decreases len(bm.mask) - rangeindex
+
+//@ func (LongBitmask).OrCopy
+//@   ensures forall(k, 0, inf, W(result.mask, k) == W(bm.mask, k) | W(other.mask, k))
+//@ func (LongBitmask).AndCopy
+//@   ensures forall(k, 0, inf, W(result.mask, k) == W(bm.mask, k) & W(other.mask, k))
+//@ func (LongBitmask).XorCopy
+//@   ensures forall(k, 0, inf, W(result.mask, k) == W(bm.mask, k) ^ W(other.mask, k))
+//@ func (LongBitmask).SubCopy
+//@   ensures forall(k, 0, inf, W(result.mask, k) == W(bm.mask, k) &^ W(other.mask, k))
+
+// Shrink: the set is unchanged and the representation has no trailing zero word
+//@ func (*LongBitmask).Shrink
+//@   modifies bm.mask
+//@   ensures forall(k, 0, inf, W(bm.mask, k) == old(W(bm.mask, k)))
+//@   ensures len(bm.mask) == 0 || bm.mask[len(bm.mask)-1] != 0
+//@   loop 1 invariant len(bm.mask) <= old(len(bm.mask))
+//@   loop 1 invariant forall(k, 0, len(bm.mask), bm.mask[k] == old(bm.mask[k]))
+//@   loop 1 invariant forall(k, len(bm.mask), old(len(bm.mask)), old(bm.mask[k]) == 0)
+//@   loop 1 decreases len(bm.mask)
+
+//@ func (LongBitmask).Next
+//@   modifies *bit
+//@   ensures implies(result, tzf(bm.mask, old(*bit), int(*bit - old(*bit))) && *bit >= old(*bit))
+//@   ensures implies(!result, tzf(bm.mask, old(*bit), -1) && *bit == old(*bit))
+
+// Inject: every bit at or above `bit` moves up by one, bit `bit` becomes value.
+// Word form: words below bit/64 stay; the word bit/64 is injw(old, bit%64, value);
+// every later word is its old value shifted up with the top bit of its predecessor carried in.
+//@ func (*LongBitmask).Inject
+//@   modifies bm.mask
+//@   decreases ite(int(bit/64) < len(bm.mask), len(bm.mask) - int(bit/64), 0)
+//@   ensures forall(k, 0, inf, W(bm.mask, k) == ite(k < int(bit/64), old(W(bm.mask, k)), ite(k == int(bit/64), injw(old(W(bm.mask, k)), bit%64, value), (old(W(bm.mask, k)) << 1) | (old(W(bm.mask, k-1)) >> 63))))
+//@   ensures len(bm.mask) >= old(len(bm.mask))
